@@ -633,6 +633,10 @@ class RoiSubsetStateNd(SubsetState):
 
         return result
 
+    def copy(self):
+        return RoiSubsetStateNd(atts=list(self._atts), roi=self.roi,
+                                pretransform=self.pretransform)
+
 
 class RoiSubsetState(RoiSubsetStateNd):
     """
